@@ -93,7 +93,7 @@ def custom(ctx):
     try:
         common.build_driver("server")
         hbin, _ = common.build_harness("h_server")
-        bst = bld_stream(ctx, ("C07", "C01", "C02"), ["b", "cb", "b", "ab"], 48, 1000, ls=(1, 2, 3, 4))
+        bst = bld_stream(ctx, ("C07", "C01", "C02"), ["b", "cb", "x", "bx", "ab", "cx"], 64, 1200, ls=(1, 2, 3, 4))
         bst.impl_cmd = [hbin, "bld"]
         bst.model_cmd = [DRIVER, "bld"]
         ctx.run_stream(bst)
